@@ -67,7 +67,62 @@ def _masses(driver):
     return not bad, f"atomic mass table ({len(impl)} elements) equal", [{"z": z, "impl": str(impl.get(z)), "model": str(model.get(z))} for z in bad[:5]]
 
 
-VALIDATORS = {"bond": _bond, "token": _token, "masses": _masses}
+def _dist(driver):
+    """which class `get_distribution` hands a text to, for every set of family names occurring in the text (both orders)"""
+    import gbigsmiles.distribution as dm
+    t = driver.run([{"op": "TABLES"}])[0]
+    table = [(k, f.split(".")[-1]) for k, f in t["dispatch"]]
+    lean_of = {"FlorySchulz": "florySchulz", "Gauss": "gauss", "Uniform": "uniform", "SchulzZimm": "schulzZimm", "LogNormal": "logNormal", "Poisson": "poisson"}
+    names = [k for k, _ in table]
+    called = []
+    saved = {}
+
+    def stub(name):
+        def make(text):
+            called.append(name)
+            raise _Stop()
+        return make
+    for cls in lean_of:
+        saved[cls] = getattr(dm, cls)
+        setattr(dm, cls, stub(cls))
+    bad = []
+    n = 0
+    try:
+        for mask in range(1, 2 ** len(names)):
+            present = [nm for b, nm in enumerate(names) if mask >> b & 1]
+            for order in (present, present[::-1]):
+                text = "|" + " ".join(order) + "(1, 2)|"
+                del called[:]
+                try:
+                    dm.get_distribution(text)
+                except _Stop:
+                    pass
+                except Exception:
+                    pass
+                want = next((f for k, f in table if k in text), None)
+                got = lean_of.get(called[0]) if called else None
+                n += 1
+                if want != got:
+                    bad.append({"text": text, "impl": got, "model": want})
+        del called[:]
+        try:
+            dm.get_distribution("|nothing(1)|")
+            bad.append({"text": "|nothing(1)|", "impl": "accepted", "model": "rejected"})
+        except _Stop:
+            bad.append({"text": "|nothing(1)|", "impl": called[:1], "model": "rejected"})
+        except Exception:
+            pass
+    finally:
+        for cls, v in saved.items():
+            setattr(dm, cls, v)
+    return not bad, f"class chosen by get_distribution for every non-empty set of family names in the text, both orders ({n} probes)", bad[:5]
+
+
+class _Stop(Exception):
+    pass
+
+
+VALIDATORS = {"bond": _bond, "token": _token, "masses": _masses, "dist": _dist}
 
 
 def validate(part, driver):
